@@ -3,6 +3,7 @@ package main
 // C18 — opening and walking a damaged filesystem image cannot crash (structural clauses).
 
 import (
+	"fmt"
 	"go/token"
 	"strings"
 
@@ -69,6 +70,15 @@ func runC18(w *World, r *Report) {
 		}
 	}
 	c18ChainWalks(w, r)
+	var all []*ssa.Function
+	for _, pkg := range fsPkgs {
+		all = append(all, fsReaderScope(w, pkg)...)
+	}
+	nloops := readLoopsProgress(w, r, "C18-d", all)
+	r.Extra["read_loops_examined"] = nloops
+	if nloops == 0 {
+		r.Ok("C18-d", "filesystem readers", "no loop whose only exits depend on a device read", "filesystem", fmt.Sprintf("%d functions", len(all)))
+	}
 	r.Extra["functions_in_scope"] = total
 	r.Floor("C18 scope", total, 150)
 	r.Floor("C18-a", r.countRule("C18-a"), 10)
